@@ -96,7 +96,21 @@ class Emitter:
         if k == "skip":
             return "SSkip"
         if k == "seq":
-            items = [self.stmt(x) for x in s[1]]
+            # NiVector::Sync = SyncSize (clamp, write the size) immediately followed by resize(that size): the pair is
+            # emitted as one nested unit (same execution order; only the association of the sequence differs), so
+            # that the checkers can treat "size written, then resized to the size just written" as one step
+            src, grouped, i = s[1], [], 0
+            while i < len(src):
+                a = src[i]
+                b = src[i + 1] if i + 1 < len(src) else None
+                if (a[0] == "vecsize" and b is not None and b[0] == "resize" and b[1] == a[1] and b[2] == a[2]
+                        and b[3] == ("local", a[4])):
+                    grouped.append("(SSeq %s %s)" % (self.stmt(a), self.stmt(b)))
+                    i += 2
+                else:
+                    grouped.append(self.stmt(a))
+                    i += 1
+            items = grouped
             out = items[-1]
             for it in reversed(items[:-1]):
                 out = "(SSeq %s %s)" % (it, out)
